@@ -1,6 +1,6 @@
 """C03 — exactly one terminal reply per request, to the right client."""
 import vlib
-from props import engine_common, ms_common
+from props import engine_common, engine2_common, ms_common
 from props.c01 import FINISH
 
 THEOREMS = ["Slock.C03.conservation", "Slock.C03.C03_at_most_one", "Slock.C03.C03_exactly_one", "Slock.C03.C03_routing",
@@ -13,6 +13,9 @@ def run(ctx):
     ctx.audit("Slock.Properties.C03", THEOREMS)
     if ctx.tier == "thorough":
         ctx.leanchecker("Slock.Properties.C03")
+    # conservation / at most one / exactly one / routing carried down to the record-level model (stage 2) through the simulation WITH replies
+    if ctx.lake_build(["Slock.Properties.EngineSimReplies"]):
+        ctx.audit("Slock.Properties.EngineSimReplies", engine2_common.THEOREMS_SIMREPLIES_C03)
     engine_common.run_engine(ctx, ["C03:"], n_quick=3000, n_thorough=60000)
     # millisecond waits: a request granted while its millisecond-table entry is still parked gets no second terminal reply
     ms_common.run_ms(ctx, "wait-c03")
